@@ -278,3 +278,71 @@ Example message_hiding_rejected :
           "@@ -1,2 +1,2 @@";"";" a";" b";
           "To see why this happens see 'Known limitations' in documentation for pytest-xdist"]) = false.
 Proof. vm_compute. reflexivity. Qed.
+
+(* ---- the full edit script: both collections are the SAME kept list, interleaved (order preserved) with
+   the '-' ids for the first and with the '+' ids for the second ---- *)
+Close Scope string_scope.
+Inductive merge {A : Type} : list A -> list A -> list A -> Prop :=
+| merge_nil : merge [] [] []
+| merge_l x xs ys zs : merge xs ys zs -> merge (x :: xs) ys (x :: zs)
+| merge_r y xs ys zs : merge xs ys zs -> merge xs (y :: ys) (y :: zs).
+
+Lemma merge_left_only {A} (l : list A) : merge l [] l.
+Proof. induction l; constructor; assumption. Qed.
+
+Lemma merge_app {A} (x1 y1 z1 x2 y2 z2 : list A) :
+  merge x1 y1 z1 -> merge x2 y2 z2 -> merge (x1 ++ x2) (y1 ++ y2) (z1 ++ z2).
+Proof. intros H1 H2. induction H1; cbn; try constructor; assumption. Qed.
+
+Lemma apply_lines_script ls : forall a o rest,
+  apply_lines ls a = Some (o, rest) ->
+  exists kept pre, a = pre ++ rest /\ merge kept (dels_of ls) pre /\ merge kept (adds_of ls) o.
+Proof.
+  induction ls as [|d ls IH]; intros a o rest H.
+  - cbn in H. inversion H; subst. exists [], []. cbn. repeat split; constructor.
+  - destruct d as [s|s|s]; cbn [apply_lines] in H.
+    + destruct a as [|y a]; [discriminate|]. destruct (String.eqb y s) eqn:E; [|discriminate].
+      apply String.eqb_eq in E; subst y.
+      destruct (apply_lines ls a) as [[o' r']|] eqn:E2; [|discriminate]. inversion H; subst.
+      destruct (IH _ _ _ E2) as (kept & pre & -> & M1 & M2).
+      exists (s :: kept), (s :: pre). cbn [adds_of dels_of flat_map app]. fold (adds_of ls) (dels_of ls).
+      repeat split; constructor; assumption.
+    + destruct a as [|y a]; [discriminate|]. destruct (String.eqb y s) eqn:E; [|discriminate].
+      apply String.eqb_eq in E; subst y.
+      destruct (IH _ _ _ H) as (kept & pre & -> & M1 & M2).
+      exists kept, (s :: pre). cbn [adds_of dels_of flat_map app]. fold (adds_of ls) (dels_of ls).
+      repeat split; [constructor|]; assumption.
+    + destruct (apply_lines ls a) as [[o' r']|] eqn:E2; [|discriminate]. inversion H; subst.
+      destruct (IH _ _ _ E2) as (kept & pre & -> & M1 & M2).
+      exists kept, pre. cbn [adds_of dels_of flat_map app]. fold (adds_of ls) (dels_of ls).
+      repeat split; [|constructor]; assumption.
+Qed.
+
+Theorem apply_hunks_script hs : forall pos a b,
+  apply_hunks hs pos a = Some b ->
+  exists kept, merge kept (all_dels hs) a /\ merge kept (all_adds hs) b.
+Proof.
+  induction hs as [|h r IH]; intros pos a b H.
+  - cbn in H. inversion H; subst. exists b. split; apply merge_left_only.
+  - apply apply_hunks_inv in H as (o & rest & t & H1 & H2 & -> & _ & _). cbn zeta in *.
+    destruct (IH _ _ _ H2) as (kr & R1 & R2).
+    destruct (apply_lines_script _ _ _ _ H1) as (kh & pre & E & M1 & M2).
+    exists (firstn (h_skip h - pos) a ++ kh ++ kr). rewrite all_dels_cons, all_adds_cons. split.
+    + rewrite <- (firstn_skipn (h_skip h - pos) a) at 2. rewrite E.
+      change (dels_of (h_lines h) ++ all_dels r) with ([] ++ dels_of (h_lines h) ++ all_dels r).
+      apply merge_app; [apply merge_left_only|]. apply merge_app; assumption.
+    + change (adds_of (h_lines h) ++ all_adds r) with ([] ++ adds_of (h_lines h) ++ all_adds r).
+      apply merge_app; [apply merge_left_only|]. apply merge_app; assumption.
+Qed.
+
+(* THE PROPERTY at full strength: what an accepted message marks IS an edit script from the first
+   collection to the second *)
+Theorem message_is_an_edit_script a b f t m :
+  message_ok a b f t (Some m) = true ->
+  exists hs kept, read_message f t m = Some hs /\
+    merge kept (all_dels hs) a /\ merge kept (all_adds hs) b.
+Proof.
+  intros H. apply message_ok_inv in H as (hs & R & A).
+  destruct (apply_hunks_script _ _ _ _ A) as (kept & M1 & M2).
+  exists hs, kept. auto.
+Qed.
